@@ -100,10 +100,11 @@ fn concretise(toks: &[Value], pool: &HashMap<String, Vec<u8>>, seed: u64) -> Res
                             let l = b.len() - 1;
                             b[l] |= 1;
                         }
-                        if style == "leadzero" {
-                            // superfluous leading zero octet, announced in the bit count
-                            out.extend_from_slice(&((bits + 8) as u16).to_be_bytes());
-                            out.push(0);
+                        if style == "leadzero" || style == "leadzero2" {
+                            // superfluous leading zero octet(s), announced in the bit count
+                            let z = if style == "leadzero" { 1 } else { 2 };
+                            out.extend_from_slice(&((bits + 8 * z) as u16).to_be_bytes());
+                            out.extend(std::iter::repeat(0u8).take(z));
                         } else {
                             out.extend_from_slice(&(bits as u16).to_be_bytes());
                         }
